@@ -56,10 +56,15 @@ type config struct {
 	Keys   int
 	MaxDup int // max items per key (duplicates config)
 	Depth  int
+	// Prefill: the exploration starts from the tree obtained by adding keys 0..Prefill-1 in ascending order
+	// (a non-initial start state: tall trees are out of reach of a shallow search from the empty tree).
+	Prefill int
+	// Ops restricts the alphabet (nil = all operations).
+	Ops []string
 }
 
 func (c config) String() string {
-	return fmt.Sprintf("slot=%d unique=%v llb=%v keys=%d maxdup=%d depth=%d", c.Slot, c.Unique, c.LLB, c.Keys, c.MaxDup, c.Depth)
+	return fmt.Sprintf("slot=%d unique=%v llb=%v keys=%d maxdup=%d depth=%d prefill=%d ops=%d", c.Slot, c.Unique, c.LLB, c.Keys, c.MaxDup, c.Depth, c.Prefill, len(c.Ops))
 }
 
 type inst struct {
@@ -76,7 +81,11 @@ func newInst(c config) *inst {
 	if err != nil {
 		panic(err)
 	}
-	return &inst{b: b, r: r}
+	in := &inst{b: b, r: r}
+	for k := 0; k < c.Prefill; k++ {
+		in.apply(op{"Add", k})
+	}
+	return in
 }
 
 // ---- operations ----
@@ -389,7 +398,11 @@ type result struct {
 
 func explore(c config, run17, run18 *ev.Run, maxStates int) result {
 	var alphabet []op
-	for _, n := range opNames {
+	names := opNames
+	if len(c.Ops) > 0 {
+		names = c.Ops
+	}
+	for _, n := range names {
 		for k := 0; k < c.Keys; k++ {
 			alphabet = append(alphabet, op{n, k})
 		}
@@ -399,7 +412,7 @@ func explore(c config, run17, run18 *ev.Run, maxStates int) result {
 	init := newInst(c)
 	w0 := init.observe(c)
 	seen[w0.shape.String()+fmt.Sprint("|c", init.cursorPos(w0))] = true
-	frontier := []state{{}}
+	frontier := []state{{ms: w0.items}}
 	res.states = 1
 	c18seen := map[string]bool{}
 	for depth := 1; depth <= c.Depth && len(frontier) > 0; depth++ {
@@ -776,6 +789,12 @@ func configsFor(thorough bool) []config {
 			{Slot: 4, Unique: true, LLB: false, Keys: 7, Depth: 7},
 			{Slot: 4, Unique: false, LLB: true, Keys: 3, MaxDup: 3, Depth: 9},
 			{Slot: 4, Unique: false, LLB: false, Keys: 3, MaxDup: 3, Depth: 9},
+			// non-initial start states: three-level trees
+			{Slot: 2, Unique: true, LLB: false, Keys: 8, Prefill: 8, Depth: 3, Ops: []string{"Remove", "Add", "FindRemoveCurrent", "Upsert"}},
+			{Slot: 2, Unique: true, LLB: true, Keys: 8, Prefill: 8, Depth: 3, Ops: []string{"Remove", "Add", "FindRemoveCurrent", "Upsert"}},
+			{Slot: 2, Unique: false, LLB: false, Keys: 8, MaxDup: 2, Prefill: 8, Depth: 3, Ops: []string{"Remove", "Add", "FindRemoveCurrent"}},
+			{Slot: 4, Unique: true, LLB: false, Keys: 22, Prefill: 22, Depth: 2, Ops: []string{"Remove", "Add"}},
+			{Slot: 4, Unique: true, LLB: true, Keys: 22, Prefill: 22, Depth: 2, Ops: []string{"Remove", "Add"}},
 		}
 	}
 	return []config{
@@ -793,6 +812,12 @@ func configsFor(thorough bool) []config {
 		{Slot: 6, Unique: false, LLB: true, Keys: 4, MaxDup: 4, Depth: 14},
 		{Slot: 8, Unique: true, LLB: true, Keys: 12, Depth: 13},
 		{Slot: 8, Unique: true, LLB: false, Keys: 12, Depth: 13},
+		{Slot: 2, Unique: true, LLB: false, Keys: 10, Prefill: 10, Depth: 5, Ops: []string{"Remove", "Add", "FindRemoveCurrent", "Upsert"}},
+		{Slot: 2, Unique: true, LLB: true, Keys: 10, Prefill: 10, Depth: 5, Ops: []string{"Remove", "Add", "FindRemoveCurrent", "Upsert"}},
+		{Slot: 2, Unique: false, LLB: false, Keys: 8, MaxDup: 2, Prefill: 8, Depth: 5, Ops: []string{"Remove", "Add", "FindRemoveCurrent"}},
+		{Slot: 4, Unique: true, LLB: false, Keys: 24, Prefill: 24, Depth: 4, Ops: []string{"Remove", "Add"}},
+		{Slot: 4, Unique: true, LLB: true, Keys: 24, Prefill: 24, Depth: 4, Ops: []string{"Remove", "Add"}},
+		{Slot: 8, Unique: true, LLB: false, Keys: 50, Prefill: 50, Depth: 9, Ops: []string{"Remove"}},
 	}
 }
 
